@@ -279,6 +279,33 @@ func c10Allocs() uint64 {
 	return c10AllocSample[0].Value.Uint64()
 }
 
+// c10Walk walks the input the way the server's create path does (server/create.go ggufLayers: decode at the
+// current position, continue at the returned end offset until it reaches the end of the file or an error). The
+// walker's whole state is the reader position, so a position seen twice means it never terminates; no clock is
+// involved. Returns "" or the description of the cycle.
+func c10Walk(data []byte, rep *kit.Report) string {
+	rs := bytes.NewReader(data)
+	seen := map[int64]bool{0: true}
+	var offset int64
+	for steps := 1; offset < int64(len(data)); steps++ {
+		_, n, err := Decode(rs, 0)
+		if err != nil {
+			break
+		}
+		pos, _ := rs.Seek(0, io.SeekCurrent)
+		if seen[pos] {
+			return fmt.Sprintf("walking the file by the decoder's end offset (as create does): step %d decoded successfully, reported end offset %d and left the reader at position %d, where an earlier step started: the walk repeats for ever", steps, n, pos)
+		}
+		seen[pos] = true
+		offset = n
+		rep.Count("walk_steps", 1)
+		if steps > 1 {
+			rep.Count("walk_second_model_decoded", 1)
+		}
+	}
+	return ""
+}
+
 // c10Run decodes one input (both collection modes) and runs the accessor battery the server uses on
 // untrusted files at create/show time. It returns violation signatures.
 func c10Run(c *c10Case, rep *kit.Report) (sigs [][2]string) {
@@ -304,6 +331,12 @@ func c10Run(c *c10Case, rep *kit.Report) (sigs [][2]string) {
 			}
 			rep.Count("decode_ok", 1)
 			_ = end
+			if maxArr == 0 {
+				stage = "walk"
+				if sig := c10Walk(c.data, rep); sig != "" {
+					sigs = append(sigs, [2]string{"c10:walk-never-terminates", sig})
+				}
+			}
 			stage = "accessors"
 			before = c10Allocs()
 			kv := g.KV()
@@ -355,6 +388,28 @@ func TestVerifC10(t *testing.T) {
 		rich bool
 	}{{"v3-le", 3, false, false}, {"v3-le-rich", 3, false, true}, {"v2-le", 2, false, false}, {"v1-le", 1, false, false}, {"v3-be", 3, true, false}, {"v1-le-rich", 1, false, true}} {
 		cases = append(cases, c10Enumerated(v.name, c10Base(r0, v.ver, v.be, v.rich))...)
+	}
+	// pairs of tensors whose sizes each fit an int64 and together wrap the end of the tensor data around 2^64
+	for _, v := range []struct {
+		ver uint32
+		be  bool
+	}{{3, false}, {2, false}, {3, true}} {
+		f := c10Base(r0, v.ver, v.be, false)
+		f.Tensors = []kit.GTensor{
+			{Name: "token_embd.weight", Dims: []uint64{8}, Kind: 0, Data: make([]byte, 32)},
+			{Name: "blk.0.attn_q.weight", Dims: []uint64{32}, Kind: 2, Data: make([]byte, 18)},
+			{Name: "blk.0.attn_k.weight", Dims: []uint64{8}, Kind: 0, Data: make([]byte, 32)},
+			{Name: "output.weight", Dims: []uint64{8}, Kind: 0, Data: make([]byte, 32)},
+		}
+		_, _, ds, _ := f.Build()
+		for _, i := range []int{0, 2} {
+			for _, target := range []uint64{0, 4, 32, 64, uint64(ds) - 32, uint64(ds) - 4, uint64(ds), uint64(ds) + 32, uint64(ds) + 64, uint64(ds) + 128} {
+				b, fields, ds2, _ := f.Build()
+				if d := f.WrapPair(b, fields, ds2, i, target); d != "" {
+					cases = append(cases, c10Case{Base: fmt.Sprintf("wrap-pair v%d be=%v", v.ver, v.be), Mutation: "wrappair[" + f.Tensors[i].Name + "]=" + fmt.Sprint(target) + " " + d, data: b})
+				}
+			}
+		}
 	}
 	nEnum := len(cases)
 	if cfg.Tier == "quick" {
